@@ -17,7 +17,7 @@ class C06(PoolScenario):
     prop = "C06"
     level = "exploration"
     profiles = ["alias-hunt", "defaults"]
-    budgets = {"quick": 4000, "thorough": 60000}
+    budgets = {"quick": 16000, "thorough": 300000}
     wall_caps = {"quick": 110, "thorough": 1500}
     ops = {"new": 1, "fill": 9, "fillnumpy": 3, "add": 5, "mul": 2.5, "zero": 1.5, "copy": 3, "read": 2, "scribble": 0.7,
            "iadd": 2.5, "drop": 0.3}
